@@ -58,6 +58,53 @@ type Obs struct {
 	Texts    map[int][]string `json:"texts"`
 }
 
+// AO / AOS: plain and soft-delete owners of a polymorphic has-many (target assoc_select)
+type AToy struct {
+	ID        int64 `gorm:"primaryKey"`
+	Name      string
+	OwnerID   int64
+	OwnerType string
+	DeletedAt gorm.DeletedAt
+}
+type AO struct {
+	ID   int64 `gorm:"primaryKey"`
+	Name string
+	Mark int64
+	Toys []AToy `gorm:"polymorphic:Owner"`
+	Kids []AKid `gorm:"foreignKey:OwnerID"`
+}
+type AOS struct {
+	ID        int64 `gorm:"primaryKey"`
+	Name      string
+	Mark      int64
+	DeletedAt gorm.DeletedAt
+	Toys      []AToy `gorm:"polymorphic:Owner"`
+}
+type AKid struct {
+	ID      int64 `gorm:"primaryKey"`
+	OwnerID int64
+	Name    string
+}
+
+func dumpAssoc(db *gorm.DB) string {
+	var sb strings.Builder
+	for _, q := range []string{"SELECT id, name, owner_id, IFNULL(deleted_at,'') FROM a_toys ORDER BY id", "SELECT id, name, mark, '' FROM aos ORDER BY id",
+		"SELECT id, name, mark, IFNULL(deleted_at,'') FROM ao_ss ORDER BY id", "SELECT id, name, owner_id, '' FROM a_kids ORDER BY id"} {
+		rows, err := db.Raw(q).Rows()
+		if err != nil {
+			return "ERR " + err.Error()
+		}
+		for rows.Next() {
+			var a, b, c, d string
+			rows.Scan(&a, &b, &c, &d)
+			sb.WriteString(a + "|" + b + "|" + c + "|" + d + ";")
+		}
+		rows.Close()
+		sb.WriteString("#")
+	}
+	return sb.String()
+}
+
 var names = []string{"a", "b", "ab", "c d", "x"}
 var nicks = []string{"n1", "n2", "a"}
 
@@ -109,6 +156,19 @@ func (e *env) run(in Input) Obs {
 		o.Texts, _ = whr.DiscoverTexts(db, base, in.Atoms)
 	}
 	before := dump(db, table)
+	if in.Target == "assoc_select" {
+		for _, t := range []string{"a_toys", "aos", "ao_ss", "a_kids"} {
+			db.Exec("DELETE FROM " + t)
+		}
+		for i := 1; i <= 2; i++ {
+			db.Exec("INSERT INTO aos (id, name, mark) VALUES (?,?,0)", i, "o")
+			db.Exec("INSERT INTO ao_ss (id, name, mark) VALUES (?,?,0)", i, "o")
+			db.Exec("INSERT INTO a_toys (id, name, owner_id, owner_type) VALUES (?,?,?,?)", i, "t", i, "aos")
+			db.Exec("INSERT INTO a_toys (id, name, owner_id, owner_type) VALUES (?,?,?,?)", i+10, "t", i, "ao_ss")
+			db.Exec("INSERT INTO a_kids (id, name, owner_id) VALUES (?,?,?)", i, "k", i)
+		}
+		before = dumpAssoc(db)
+	}
 	tx := db.Session(&gorm.Session{})
 	if in.Allow == "session" {
 		tx = db.Session(&gorm.Session{AllowGlobalUpdate: true})
@@ -202,6 +262,19 @@ func (e *env) run(in Input) Obs {
 			} else {
 				res = tx.Updates(&whr.T{ID: in.PK, Mark: 7})
 			}
+		case "update_pk":
+			// the update values name the primary-key column: still no condition
+			res = tx.Model(model()).Update("id", 77)
+		case "updates_map_pk":
+			res = tx.Model(model()).Updates(map[string]interface{}{"id": 77, "mark": 7})
+		case "update_columns_pk":
+			res = tx.Model(model()).UpdateColumns(map[string]interface{}{"id": 77, "mark": 7})
+		case "updates_struct_pk":
+			if in.Soft {
+				res = tx.Model(model()).Updates(whr.TS{ID: 77, Mark: 7})
+			} else {
+				res = tx.Model(model()).Updates(whr.T{ID: 77, Mark: 7})
+			}
 		case "update_column":
 			res = tx.Model(model()).UpdateColumn("mark", 7)
 		case "update_columns":
@@ -226,7 +299,11 @@ func (e *env) run(in Input) Obs {
 			o.OtherErr = res.Error.Error()
 		}
 	}
-	o.Changed = dump(db, table) != before
+	if in.Target == "assoc_select" {
+		o.Changed = dumpAssoc(db) != before
+	} else {
+		o.Changed = dump(db, table) != before
+	}
 	return o
 }
 
@@ -260,6 +337,23 @@ func runTarget(tx *gorm.DB, in Input, table string) *gorm.DB {
 			return tx.Model(&whr.TS{ID: in.PK}).Delete(&whr.TS{})
 		}
 		return tx.Model(&whr.T{ID: in.PK}).Delete(&whr.T{})
+	case "assoc_select":
+		// the owner's associations are selected for deletion / saving together with it
+		var owner interface{} = &AO{ID: in.PK}
+		if in.Soft {
+			owner = &AOS{ID: in.PK}
+		}
+		sel := tx.Select(clause.Associations)
+		if in.Finisher == "delete_toys" {
+			sel = tx.Select("Toys")
+		}
+		switch in.Finisher {
+		case "delete", "delete_toys":
+			return sel.Delete(owner)
+		case "updates_map":
+			return sel.Model(owner).Updates(map[string]interface{}{"mark": 7})
+		}
+		return sel.Model(owner).Update("mark", 7)
 	case "slice":
 		var sl interface{}
 		k2 := in.PK
@@ -347,6 +441,10 @@ func alphabet() []Step {
 }
 
 var finishers = []string{"update", "updates_map", "updates_struct", "updates_struct_nomodel", "update_column", "update_columns", "delete"}
+
+// update values that name the primary-key column: generated only where the chain must be rejected
+// (executed on several rows they end in a UNIQUE violation, which is not this property's business)
+var pkFinishers = []string{"update_pk", "updates_map_pk", "update_columns_pk", "updates_struct_pk"}
 var allows = []string{"off", "config", "session"}
 var targets = []struct {
 	name string
@@ -356,6 +454,9 @@ var targets = []struct {
 	{"table_only", []string{"update", "updates_map", "update_column", "update_columns", "delete", "delete_map"}, []int64{0}},
 	{"model_dest", []string{"delete"}, []int64{0, 3}},
 	{"slice", []string{"update", "updates_map", "update_column", "update_columns", "delete"}, []int64{0, 3}},
+	// (an Update whose Select names only associations has nothing to set and sends nothing: not
+	// generated)
+	{"assoc_select", []string{"delete", "delete_toys"}, []int64{0, 1}},
 }
 
 func main() {
@@ -364,7 +465,7 @@ func main() {
 	for _, k := range []string{"off", "config"} {
 		db, rec, _, err := gdb.Open(gdb.Opt{Config: &gorm.Config{AllowGlobalUpdate: k == "config", Logger: logger.Discard}})
 		lib.Must(err)
-		lib.Must(db.AutoMigrate(&whr.T{}, &whr.TS{}))
+		lib.Must(db.AutoMigrate(&whr.T{}, &whr.TS{}, &AO{}, &AOS{}, &AToy{}, &AKid{}))
 		e.dbs[k], e.rec[k] = db, rec
 	}
 	out := lib.NewOut(a.Out, "C09")
@@ -461,6 +562,23 @@ func main() {
 				}
 			}
 		}
+		hasSelect := false
+		for _, st := range ch {
+			if st.Deco == "select" {
+				hasSelect = true // Select("mark") leaves nothing to set: no statement, no error
+			}
+		}
+		for _, f := range pkFinishers {
+			if hasSelect {
+				break
+			}
+			for _, soft := range []bool{false, true} {
+				if len(ch) > 1 && !r.Chance(1, keep) {
+					continue
+				}
+				add("enum", Input{Soft: soft, Allow: "off", Finisher: f, Steps: ch})
+			}
+		}
 		// the other ways of naming the target rows
 		for _, tg := range targets {
 			for _, f := range tg.fins {
@@ -494,7 +612,7 @@ func main() {
 			in.PK = 3
 		}
 		if r.Chance(1, 4) {
-			tg := lib.Pick(r, targets)
+			tg := lib.Pick(r, targets[:3]) // (assoc_select has its own tables: enumerated chains only)
 			in.Target, in.Finisher = tg.name, lib.Pick(r, tg.fins)
 			if tg.name == "table_only" {
 				in.Soft, in.PK = false, 0
@@ -511,6 +629,18 @@ func main() {
 			k := lib.Pick(r, []string{"where", "where", "or", "not"})
 			u := g.GenUnit(1, r.Bool(), true)
 			in.Steps = append(in.Steps, Step{Call: &whr.Call{Kind: k, Unit: u}})
+		}
+		if in.Target == "table_only" {
+			var calls []whr.Call
+			for _, st := range in.Steps {
+				if st.Call != nil {
+					calls = append(calls, *st.Call)
+				}
+			}
+			if whr.UsesPrimaryKeyValue(calls) {
+				in.Target = "" // a bare key value needs a schema to name its column
+				in.Finisher = "delete"
+			}
 		}
 		if in.Finisher == "delete" && in.Target == "" && r.Bool() {
 			in.InlineLast = true // takes effect when the last step is a Where call
